@@ -580,9 +580,9 @@ pub static TABLE: &[Wrapper] = &[
 /// reason (they are listed in the evidence, not silently dropped).
 pub static EXCLUDED: &[(&str, &str)] = &[
     ("process/exit.rs::exit", "returns `!`: cannot be driven with a forced return"),
-    ("process/get_pid.rs::get_pid", "infallible by signature (no Result): nothing to decode"),
-    ("time/clock_get_time.rs::clock_get_real_time", "infallible by signature (no Result)"),
-    ("time/clock_get_time.rs::clock_get_monotonic_time", "infallible by signature (no Result)"),
+    ("process/get_pid.rs::get_pid", "infallible by signature (no Result): nothing to decode; call count and value are judged by sub-check infallible"),
+    ("time/clock_get_time.rs::clock_get_real_time", "infallible by signature (no Result); call count, clock id and reading are judged by sub-check infallible"),
+    ("time/clock_get_time.rs::clock_get_monotonic_time", "infallible by signature (no Result); call count, clock id and reading are judged by sub-check infallible"),
     (
         "io_uring.rs::setup_io_uring",
         "not a raw wrapper: a composite of io_uring_setup + mmap x2..3 that dereferences the mapped rings; its constituent wrappers are in the table (C17/C18 cover it)",
